@@ -76,3 +76,12 @@ Fixpoint legit_run (st : option cluster) (soup : list (list Z)) (ops : list (lis
 Definition legit_schedule (ops : list (list Z)) : bool := legit_run None [] ops.
 
 Definition observes (line : list Z) (ops : list (list Z)) : bool := existsb (list_eqb line) (run_case ops).
+
+(* the cluster state at the end of a schedule *)
+Fixpoint run_state (st : option cluster) (ops : list (list Z)) : option cluster :=
+  match ops with
+  | [] => st
+  | op :: r => run_state (fst (step_wire st op)) r
+  end.
+
+Definition final_state (ops : list (list Z)) : option cluster := run_state None ops.
